@@ -25,7 +25,7 @@ pub const NUM_WIDE: &[&str] = &[
     "4294967295", "4294967296", "-2147483648", "1e15", "0.000001", "1e21", "1e22", "-1e21", "21", "33", "0.3", "-0.1", "1e308", "6", "8", "9", "0.75", "1e-3",
 ];
 
-pub const INT_WIDE: &[&str] = &["0", "1", "2", "3", "4", "5", "7", "19", "20", "21", "31", "32", "33", "64", "65", "100", "1.0", "2.5", "-1", "-0.0", "4294967296", "null", "\"1\""];
+pub const INT_WIDE: &[&str] = &["0", "1", "2", "3", "4", "5", "7", "19", "20", "21", "31", "32", "33", "64", "65", "100", "1.0", "2.5", "-1", "-0.0", "4294967296", "18446744073709551615", "9223372036854775808", "null", "\"1\""];
 /// arguments that decide an allocation size stay small (resource exhaustion is outside the domain)
 pub const SIZE_WIDE: &[&str] = &["0", "1", "2", "3", "5", "8", "20", "21", "33", "1.0", "2.5", "-1", "-0.0", "null", "\"2\""];
 
